@@ -91,7 +91,8 @@
 // distinction between nil and empty slices, `len` ≥ 2^63, IO errors of the read effect.
 //
 // On any construct outside the subset the tool prints a message, exits with status 2 and
-// overwrites <outfile> with a stub whose elaboration fails, so that no stale translation survives.
+// leaves the function (and its callers) out of <outfile>, so that the theorems about it stop elaborating and no stale
+// translation survives.
 package main
 
 import (
@@ -2962,24 +2963,19 @@ func main() {
 		}
 		p.defs = append(p.defs, text)
 	}
-	if failed {
-		// never leave a stale translation behind: the Lean build must fail too
-		var sb strings.Builder
-		sb.WriteString("/- GENERATED by harness/cmd/trans from the Go sources on every run -- do not edit.\n")
-		sb.WriteString("   TRANSLATION FAILED: a whitelisted function left the supported Go subset. -/\n")
-		for _, m := range failures {
-			fmt.Fprintf(&sb, "#eval show IO Unit from throw (IO.userError %s)\n", leanStr(m))
-		}
-		os.MkdirAll(filepath.Dir(outFile), 0o755)
-		os.WriteFile(outFile, []byte(sb.String()), 0o644)
-		os.Exit(2)
-	}
+	// A function that left the supported subset (and every function that calls it) is simply NOT defined in the generated
+	// file: the equality theorems about it no longer elaborate, so the obligations of the properties that restate them fail,
+	// while the translations of the other functions - and the properties that depend only on those - are unaffected.
+	// The file is regenerated as a whole on every run, so no stale definition can survive.
 	var sb strings.Builder
 	sb.WriteString("import XixiKV.Model.Varint\n")
 	sb.WriteString("/- GENERATED by harness/cmd/trans from the Go sources on every run -- do not edit.\n")
 	sb.WriteString("   Mechanical translation of whitelisted Go functions; see harness/cmd/trans/main.go for the\n")
 	sb.WriteString("   Go subset, the effect / primitive tables and the integer semantics.  The equalities with the\n")
 	sb.WriteString("   hand-written model are proved in XixiKV/Proofs/TransEq.lean and TransEq2.lean. -/\n")
+	for _, m := range failures {
+		fmt.Fprintf(&sb, "/- NOT TRANSLATED: %s -/\n", strings.ReplaceAll(m, "-/", "- /"))
+	}
 	sb.WriteString("namespace XixiKV.Generated.Trans\n\n")
 	sb.WriteString(prelude)
 	sb.WriteString(dtPrelude) // dt.go
@@ -3019,12 +3015,18 @@ func main() {
 	}
 	old, err := os.ReadFile(outFile)
 	if err == nil && string(old) == sb.String() {
-		fmt.Printf("trans: %d functions, unchanged\n", len(whitelist))
+		fmt.Printf("trans: %d functions, unchanged\n", len(whitelist)-len(failures))
+		if failed {
+			os.Exit(2)
+		}
 		return
 	}
 	if err := os.WriteFile(outFile, []byte(sb.String()), 0o644); err != nil {
 		fmt.Fprintln(os.Stderr, "trans:", err)
 		os.Exit(1)
 	}
-	fmt.Printf("trans: %d functions written to %s\n", len(whitelist), outFile)
+	fmt.Printf("trans: %d functions written to %s\n", len(whitelist)-len(failures), outFile)
+	if failed {
+		os.Exit(2)
+	}
 }
